@@ -6,7 +6,9 @@ CONSTANTS
   MinWork = 0
   Requested = {TRUE, FALSE}
   KeepWindow = 288
+  FullSpans = {}
+  WorldFilter = "any"
 INIT InitObs
 NEXT Stutter
-INVARIANTS ObsTipIsMostWork ObsNoFailedInChain ObsChainHasData ObsNoBadInChain ObsInvalidateOK ObsReconsiderOK ObsUnrequestedOK ObsRequestedOK
+INVARIANTS ObsTipIsMostWork ObsTipIsMostWorkTrue ObsNoFailedInChain ObsChainHasData ObsNoBadInChain ObsInvalidateOK ObsReconsiderOK ObsUnrequestedOK ObsRequestedOK
 CHECK_DEADLOCK FALSE
